@@ -122,6 +122,10 @@ impl Resolver<usize> for ResolveScope<'_> {
             LitOrRef::Lit(lit) => Ok(*lit),
             LitOrRef::Ref(name) => {
                 match self.value_reference(name).map(|vr| vr.value.to_integer()) {
+                    // a negative value is not a valid size
+                    Some(Some(value)) if value < 0 => {
+                        Err(Error::FailedToParseLiteral(format!("name: {}", name)))
+                    }
                     Some(Some(value)) => Ok(value as usize),
                     Some(None) => Err(Error::FailedToParseLiteral(format!("name: {}", name))),
                     None => Err(Error::FailedToResolveReference(name.clone())),
